@@ -237,6 +237,20 @@ func TestGenGolden(t *testing.T) {
 	}
 	gen("sizes", "zero-length key, zero-length value, 65535-byte key, 64 KiB value", fs.OS, small, true, nil, sizes)
 	gen("sizes-unclean", "as sizes, not closed", fs.OSMMap, small, false, nil, sizes)
+	gen("emptyempty-unclean", "the empty key with an empty value (a valid record whose 6-byte header is all zero) followed by further records, not closed", fs.OS, small, false, nil, func(db *DB, m map[string][]byte) error {
+		if err := put(db, m, []byte("first"), []byte("1")); err != nil {
+			return err
+		}
+		if err := put(db, m, []byte{}, []byte{}); err != nil {
+			return err
+		}
+		for i := 0; i < 5; i++ {
+			if err := put(db, m, key(i), val(i, 0)); err != nil {
+				return err
+			}
+		}
+		return put(db, m, []byte("first"), []byte("2"))
+	})
 	gen("emptied", "all keys deleted again, then closed and reopened once (fresh hash seed drawn), then three keys", fs.OS, small, true, nil,
 		func(db *DB, m map[string][]byte) error {
 			for i := 0; i < 50; i++ {
